@@ -67,7 +67,7 @@ theorem inv0_step {s l s'} (hi : Inv0 s) (hs : Step s l s') : Inv0 s' := by
   | oRdLoad t op rest x h ht hop hr hx => inv0_o hi, t, hr
   | oReady t x h =>
       have hp := hi.busy t (by rw [h]; simp)
-      by_cases hc : x ≠ .list [] ∧ (s.obs t).todo.head? = some .readyTouch
+      by_cases hc : x = .result ∧ (s.obs t).todo.head? = some .readyTouch
       · simp only [doReady, readyNext_pos hc]; inv0_o hi, t, hp
       · simp only [doReady, readyNext_neg hc]; inv0_o hi, t, hp
   | oTouch t h => have hp := hi.busy t (by rw [h]; simp); inv0_o hi, t, hp
